@@ -1,2 +1,3 @@
 pub mod c01;
 pub mod c07;
+pub mod c08;
